@@ -204,7 +204,7 @@ def allowed_mix(k: str, others: set[str]) -> bool:
     return False
 
 
-def forwarding(rep: Report, prog: Program) -> None:
+def forwarding(rep: Report, prog: Program, strict: bool = True) -> None:
     rep.rule("R12.3", "forwarding completeness: every parameter of every delegating layer reaches its delegate under the keyword of the same name (frozen rename table), unmodified, nothing dropped, nothing crossed")
     ends = lambda *s: (lambda e: any(e.label.endswith(x) or (x.startswith("new ") and e.is_ctor(x[4:])) for x in s))  # noqa: E731
     W = "redress.policy.wrappers"
@@ -250,21 +250,28 @@ def forwarding(rep: Report, prog: Program) -> None:
             rep.ok("R12.3")
         else:
             rep.fail("R12.3", f"context-fields|{cname}", f"{cname} fields {prog.all_fields(ci)} differ from the positional order used by .context(...) ({['policy'] + CALL_PARAMS})", where=f"{ci.module.relpath}:{ci.node.lineno}", function=ci.qual)
-    # decorator
-    dec = prog.func("redress.policy.decorator:retry")
-    inner = dec.nested.get("decorator")
-    if inner is None:
-        raise AnalysisError("decorator closure vanished")
-    dec_params = [p for p in dec.param_names() if p != "func"]
-    ctor_params = [p for p in dec_params if p in RETRY_CTOR_PARAMS]
-    call_params = [p for p in dec_params if p not in RETRY_CTOR_PARAMS]
-    check_forward(rep, prog, inner, lambda e: e.is_ctor("RetryPolicy"), ctor_params, {}, "decorator-ctor-sync", required_kw=RETRY_CTOR_PARAMS)
-    check_forward(rep, prog, inner, lambda e: e.is_ctor("AsyncRetryPolicy"), ctor_params, {}, "decorator-ctor-async", required_kw=RETRY_CTOR_PARAMS)
-    for wname, tgt in (("wrapper", "RetryPolicy.call"), ("async_wrapper", "AsyncRetryPolicy.call")):
-        wf = inner.nested.get(wname)
-        if wf is None:
-            raise AnalysisError(f"decorator {wname} vanished")
-        check_forward(rep, prog, wf, ends(tgt), [p for p in call_params if p != "operation"], {"operation": "op_name"}, "decorator-call", required_kw=call_params)
+    # decorator (for the slices re-run under other properties - strict=False - a decorator layer the recogniser does
+    # not understand is C12's own exit 2, not theirs)
+    try:
+        # decorator
+        dec = prog.func("redress.policy.decorator:retry")
+        inner = dec.nested.get("decorator")
+        if inner is None:
+            raise AnalysisError("decorator closure vanished")
+        dec_params = [p for p in dec.param_names() if p != "func"]
+        ctor_params = [p for p in dec_params if p in RETRY_CTOR_PARAMS]
+        call_params = [p for p in dec_params if p not in RETRY_CTOR_PARAMS]
+        check_forward(rep, prog, inner, lambda e: e.is_ctor("RetryPolicy"), ctor_params, {}, "decorator-ctor-sync", required_kw=RETRY_CTOR_PARAMS)
+        check_forward(rep, prog, inner, lambda e: e.is_ctor("AsyncRetryPolicy"), ctor_params, {}, "decorator-ctor-async", required_kw=RETRY_CTOR_PARAMS)
+        for wname, tgt in (("wrapper", "RetryPolicy.call"), ("async_wrapper", "AsyncRetryPolicy.call")):
+            wf = inner.nested.get(wname)
+            if wf is None:
+                raise AnalysisError(f"decorator {wname} vanished")
+            check_forward(rep, prog, wf, ends(tgt), [p for p in call_params if p != "operation"], {"operation": "op_name"}, "decorator-call", required_kw=call_params)
+    except AnalysisError as exc:
+        if strict:
+            raise
+        rep.notes.append(f"forwarding slice: decorator layer not decided ({exc})")
     rep.floor("R12.3", 400)
 
 
